@@ -25,7 +25,7 @@ REQUIRED_COUNTERS = ["faults_fired", "reuses_observed", "expiries_observed", "us
 SHARDS = {"quick": 16, "thorough": 16}
 TIMEOUT = {"quick": 900, "thorough": 7200}
 
-HARD = {"refused", "timeout", "unreach", "reset", "brokenpipe", "timeout_delivered", "eof", "oserror", "gaierror"}
+HARD = {"refused", "timeout", "unreach", "reset", "brokenpipe", "timeout_delivered", "eof", "oserror", "gaierror", "valueerror", "overflow"}
 
 
 def hard(k):
@@ -308,11 +308,24 @@ def multi_connection_idle(res, rng, count):
                                           "after a checkout a connection idle %.0fs > %r is still open in the pool (never examined); plan %r"
                                           % (idle, T, plan), ("multi", plan))
                             break
-                elif c < 0.75 and held:
+                elif c < 0.65 and held:
                     o = held.pop(rng.randrange(len(held)))
                     pool.release(o)
                     released_at[id(o)] = w.clock.now()
                     plan.append("release")
+                elif c < 0.75 and held:
+                    # a call failed on one connection: it is destroyed; healthy idle siblings stay pooled and open
+                    o = held.pop(rng.randrange(len(held)))
+                    idle_before = list(pool.free)
+                    pool.destroy(o)
+                    plan.append("destroy")
+                    if o.sock is not None:
+                        res.violation("multi:destroyed-connection-left-open", "plan %r" % (plan,), ("multi", plan))
+                    for f in idle_before:
+                        if all(f is not x for x in pool.free) or f.sock is None:
+                            res.violation("multi:healthy-idle-connection-closed-by-a-sibling's-failure",
+                                          "destroying one connection removed/closed an idle one; plan %r" % (plan,), ("multi", plan))
+                            break
                 else:
                     g = rng.choice([1, 2, T - 1, T, T + 1, 3 * T])
                     w.clock.advance(g)
